@@ -49,7 +49,9 @@ macro_rules! impl_into_parallel_source_range {
                 let peers: i64 = peers.try_into().unwrap();
                 let n = (self.end as i64).saturating_sub(self.start as i64).max(0);
                 let chunk_size = (n.saturating_add(peers - 1)) / peers;
-                let start = (self.start as i64).saturating_add(index * chunk_size);
+                let start = (self.start as i64)
+                    .saturating_add(index * chunk_size)
+                    .min((self.end as i64).max(self.start as i64));
                 let end = (start.saturating_add(chunk_size))
                     .min(self.end as i64)
                     .max(self.start as i64);
